@@ -285,6 +285,12 @@ def _undo_threading(ctx, m, rep, cl):
         okb = okb and b is not None and b.get(f_match.mparams[0]) == ap and b.get(f_match.mparams[1]) is not None and M.group0(b.get(f_match.mparams[1]), mvar) and b.get(f_match.mparams[2]) == up
         rep.ob(cl + ".sub-callable", f_addr.name, okb,
                "callback is %s; expected _anonymize_match(anonymizer, match.group(0), undo_ip_anon)" % show(repl), w, key=cl + ".sub-callable|" + f_addr.name)
+    # a caller that does not mention the direction anonymizes: every default of an undo parameter is False
+    for f_ in (f_addr, p.find_function("FileAnonymizer.__init__"), p.find_function("anonymize_files")):
+        for pn, d in f_.defaults.items():
+            if "undo" in pn:
+                okd = isinstance(d, ast.Constant) and d.value is False
+                rep.ob(cl + ".undo-default", "%s(%s)" % (f_.name, pn), okd, "default of %s in %s is %s; a call that does not give the direction must anonymize, not undo" % (pn, f_.qualname, ast.unparse(d)), where(f_, d), key="%s.undo-default|%s" % (cl, f_.name))
     # FileAnonymizer.anonymize_io: both IP call sites receive self.undo_ip_anon
     f_io = p.find_function("FileAnonymizer.anonymize_io")
     f_fa = p.find_function("FileAnonymizer.__init__")
